@@ -444,6 +444,9 @@ func runC03(c *core.Ctx) {
 	lastIdx = 0 // generator state is per case: a case is a pure function of (seed, tier, index)
 	c.SetGaps(i >= sweepCases && (i/4)%2 == 1)
 	switch {
+	case i >= sweepCases && i < sweepCases+3:
+		c.SetGaps(false)
+		runHugeLinear(c, i-sweepCases, hugeLinearN(c.Tier)) // the three lists with 300 000 elements
 	case i < sweepCases:
 		runListSweep(c, IntDom(5), i)
 	case i%20 == 0:
